@@ -699,6 +699,18 @@ def job_headers(job, res):
                       and not back[0].is_renew_secret(cancel) and back[0].get_expiration_time() == exp)
                 if not ok:
                     res.violation("lease:immutable-container-roundtrip", case, "lease written into a v%d immutable container reads back as %r" % (schema.version, back))
+                # a RENEWED record must still decode to the lease that was encoded (same secrets, new time)
+                try:
+                    ShareFile(p).renew_lease(renew, exp + 5000)
+                    back = list(ShareFile(p).get_leases())
+                    ok = (len(back) == 1 and back[0].is_renew_secret(renew) and back[0].is_cancel_secret(cancel)
+                          and not back[0].is_renew_secret(cancel) and back[0].get_expiration_time() == exp + 5000)
+                except Exception as e:  # noqa
+                    back, ok = repr(e), False
+                if not ok:
+                    res.violation("lease:immutable-container-renewed-roundtrip", case, "lease renewed inside a v%d immutable container reads back as %r" % (schema.version, back))
+                if ok:
+                    ShareFile(p).renew_lease(renew, exp, allow_backdate=True)
                 if schema.version == 1:
                     record = struct.pack(">L32s32sL", 1, renew, cancel, exp)
                     with open(p, "rb") as f:
@@ -733,6 +745,17 @@ def job_headers(job, res):
                       and not back[0].is_renew_secret(cancel) and back[0].get_expiration_time() == exp and back[0].nodeid == nid)
                 if not ok:
                     res.violation("lease:mutable-container-roundtrip", case, "lease written into a v%d container reads back as %r" % (schema.version, back))
+                try:
+                    MutableShareFile(p).renew_lease(renew, exp + 5000)
+                    back = list(MutableShareFile(p).get_leases())
+                    ok = (len(back) == 1 and back[0].is_renew_secret(renew) and back[0].is_cancel_secret(cancel)
+                          and not back[0].is_renew_secret(cancel) and back[0].get_expiration_time() == exp + 5000 and back[0].nodeid == nid)
+                except Exception as e:  # noqa
+                    back, ok = repr(e), False
+                if not ok:
+                    res.violation("lease:mutable-container-renewed-roundtrip", case, "lease renewed inside a v%d container reads back as %r" % (schema.version, back))
+                if ok:
+                    MutableShareFile(p).renew_lease(renew, exp, allow_backdate=True)
                 record = struct.pack(">LL32s32s20s", 1, exp, renew, cancel, nid)
                 if schema.version == 1:
                     with open(p, "rb") as f:
